@@ -9,7 +9,7 @@ ASSUMPTIONS = [
     "the tokenizer (msdparser.parse_msd) is the trusted base: the documented rules are decided on parameter streams (2 symbolic parameters after 7 concrete prefixes; keys from 11 spellings; 0..3 components of <=2 arbitrary characters; NOTES with 5..7 components)",
     "entry points / format detection / strictness: a concrete family of 9 texts (stray text, BOM, lower-case keys, missing semicolon, comments, CRLF) x 6 entry points x strict; the file-name rule is decided as a unit for a symbolic suffix (<=4 characters over '.sScCmMbakt', with and without a stem) and composed with the entry points through 11 representative names",
 ]
-OUTSIDE = ["'for any text' at character level (the lexer is not symbolically reachable: DESIGN 5.1)", "simfile.open(filename) on the native filesystem (C05 covers open over the model filesystem)",
+OUTSIDE = ["'for any text' at character level beyond 2 (thorough: 3) characters over a 9-letter MSD alphabet (chars_sm obligation); longer texts are decided on parameter streams", "simfile.open(filename) on the native filesystem (C05 covers open over the model filesystem)",
            "texts ending in an unpaired backslash (excluded by the property)"]
 
 
@@ -39,6 +39,13 @@ def obligations(tier):
             obs.append(dict(name=f"entrypoints[text{ti},entry{entry}]", func="entrypoints", pre=f"ti == {ti} and entry == {entry}" + ("" if entry == 3 else " and ni == 0"), timeout=T,
                             bounds="strict symbolic; for the named-file entry point the name is chosen by symbolic index from 11 representatives of every class the name rule distinguishes"))
     obs.append(dict(name="chart_from_str", func="chart_from_str", timeout=T, bounds="3 concrete chart texts x strict"))
+    if tier == "quick":
+        obs.append(dict(name="chars_sm[|text|<=2]", func="chars_sm", pre="len(text) <= 2", timeout=2 * T,
+                        bounds="character level: every text of <= 2 characters over the MSD alphabet '#:;/\\\\n aN' through the real lexer, strict symbolic"))
+    else:
+        for st in (False, True):
+            obs.append(dict(name=f"chars_sm[|text|<=3,strict={st}]", func="chars_sm", pre=f"strict == {st}", timeout=2 * T,
+                            bounds="character level: every text of <= 3 characters over the MSD alphabet through the real lexer"))
     return obs
 
 
